@@ -266,6 +266,7 @@ fn eval(env: &mut Env, p: &Prog, boolean: bool) -> Result<Node, (String, String,
 }
 
 fn run_prog(rep: &mut Report, z3: &mut Proc, lv_proto: &Leaves, p: &Prog, boolean: bool, id: serde_json::Value) {
+    crate::panics::set_context(format!("C20 program {id}"));
     rep.count("programs", 1);
     // fresh context per program (the leaves are rebuilt in the same order => same ExprRefs)
     let mut ctx = Context::default();
